@@ -6,7 +6,8 @@
    printed as one JSON case.                                                      *)
 EXTENDS GenDoc, SExec, Json
 
-CONSTANTS MaxOverlay     \* number of benign overlay entries (0..MaxOverlay)
+CONSTANTS MaxOverlay,    \* number of benign overlay entries (0..MaxOverlay)
+          TRSets         \* the sets of registered custom type resolvers to explore (see GQL!EffectiveRT)
 
 Lit(t, v) == [t |-> t, v |-> v]
 Dir(n, l) == [name |-> n, val |-> l]
@@ -37,6 +38,7 @@ AlphaOf(f) == [tn \in AllTypeNames |-> IF tn \in DOMAIN f THEN f[tn] ELSE {}]
 \* feature groups
 AlphaBasic == AlphaOf([Query |-> {"o", "s", "lo"}, T |-> {"s", "o", "d"}])
 AlphaAbstract == AlphaOf([Query |-> {"p", "lp", "u"}, P |-> {"s", "__typename"}, A |-> {"a", "s"}, B |-> {"b", "d"}, C |-> {"c"}, U |-> {"__typename"}])
+AlphaTypeRes == AlphaOf([Query |-> {"p", "lp", "u"}, T |-> {"p"}, P |-> {"__typename", "p"}, A |-> {"a"}, B |-> {"b"}, U |-> {"__typename"}])
 AlphaLists == AlphaOf([Query |-> {"lo", "lnn", "nl", "ll", "le", "ls"}, T |-> {"s", "lo", "e"}])
 AlphaArgs == AlphaOf([Query |-> {"f", "g", "o"}, T |-> {"f", "g"}])
 AlphaFrag == AlphaOf([Query |-> {"o", "p"}, T |-> {"s", "o"}, P |-> {"s"}, A |-> {"a"}, B |-> {"b"}])
@@ -95,7 +97,9 @@ AlphaMut == AlphaOf([Mutation |-> {"m1", "m3", "ml"}, T |-> {"s", "o"}])
 \* ---- pick phase ------------------------------------------------------------------
 OpIds == {i \in 1..Len(nodes) : nodes[i].k = "OP"}
 
-BaseC(op, vs) == [nodes |-> nodes, op |-> op, vars |-> vs, overlay |-> <<>>]
+BaseC(op, vs) == [nodes |-> nodes, op |-> op, vars |-> vs, overlay |-> <<>>, trs |-> {}]
+NoTR == {{}}
+AllTR == SUBSET {"field", "type", "engine"}
 
 \* benign outcomes applicable at a position of the overlay-free response tree
 BenignAt(p) ==
@@ -117,14 +121,16 @@ Pick ==
          /\ LET C0 == BaseC(op, CoercedVars(nodes, op, g)) IN
             \E p \in BigStep(C0).pos \cup {[path |-> <<>>, type |-> <<"X">>]} :
               \E o \in (IF p.path = <<>> \/ MaxOverlay = 0 THEN {[o |-> "none"]} ELSE BenignAt(p)) :
-                pick' = [op |-> op, given |-> g,
+                \E trs \in TRSets :
+                pick' = [op |-> op, given |-> g, trs |-> trs,
                          overlay |-> IF o.o = "none" THEN <<>> ELSE (p.path :> o)]
   /\ phase' = "done" /\ UNCHANGED nodes
 
 Next == AddOp \/ AddFrag \/ AddField \/ AddInline \/ AddSpread \/ Finish \/ Pick
 Spec == Init /\ [][Next]_gvars
 
-Ctx == [nodes |-> nodes, op |-> pick.op, vars |-> CoercedVars(nodes, pick.op, pick.given), overlay |-> pick.overlay]
+Ctx == [nodes |-> nodes, op |-> pick.op, vars |-> CoercedVars(nodes, pick.op, pick.given), overlay |-> pick.overlay,
+        trs |-> IF "trs" \in DOMAIN pick THEN pick.trs ELSE {}]
 
 \* ---- R1: properties of the specification itself --------------------------------
 RECURSIVE KeysOf(_)
@@ -152,6 +158,6 @@ ASSUME PrintT(ToJson([kind |-> "schema", types |-> TypesExec, roots |-> RootsExe
 Emit == phase = "done" =>
   LET b == BigStep(Ctx) IN
   PrintT(ToJson([kind |-> "case", nodes |-> nodes, op |-> pick.op,
-                 given |-> PairsOf(pick.given), overlay |-> PairsOf(pick.overlay),
+                 given |-> PairsOf(pick.given), overlay |-> PairsOf(pick.overlay), trs |-> Ctx.trs,
                  cvars |-> PairsOf(Ctx.vars), data |-> b.data, errs |-> b.errs, nulls |-> b.nulls, calls |-> b.calls]))
 =============================================================================
